@@ -173,6 +173,63 @@ def near_tie_jobs(rng, n_per_table):
     return jobs
 
 
+INF = float("inf")
+
+
+def inf_jobs(rng, reps):
+    """+inf and -inf are ordinary (non-NaN) values: cells holding +inf in one layer and -inf in another, only
+    +inf, only -inf, next to numbers and genuine NaN.  Values are carried by rank through the table
+    [-inf, 1, 2, 3, +inf] (codes 1..3 ARE the values 1..3, so the reference layer 1..L works for rank); judged on the
+    order-based operators + rank (the arithmetic statistics of infinities are IEEE business, not the property's)."""
+    table = [-INF, 1.0, 2.0, 3.0, INF]
+    jobs = []
+    for L in (2, 3):
+        for _ in range(reps):
+            H, W = rng.choice([(4, 5), (3, 6)])
+            layers = [[[NAN if rng.random() < 0.06 else rng.choice([0, 4, 0, 4, 1, 2, 3]) for _ in range(W)]
+                       for _ in range(H)] for _ in range(L)]
+            layers[0][0][0], layers[1][0][0] = 4, 0          # +inf / -inf in different layers of one cell
+            layers[0][0][1], layers[1][0][1] = 0, 4
+            for i in range(2, L):
+                layers[i][0][0], layers[i][0][1] = 2, 2
+            ref = [[rng.randrange(1, L + 1) for _ in range(W)] for _ in range(H)]
+            jobs.append({"H": H, "W": W, "L": L, "layers": layers, "ref": ref, "table": table,
+                         "dtypes": ["float64"] * L, "ref_dtype": "int64", "layouts": [rng.choice(C_LIKE + ("F",)) for _ in range(L)],
+                         "funcs": ORDER_FUNCS + ["rank"], "pop": False, "full": 0, "pairs": 1, "tag": "infinities_L%d" % L})
+    return jobs
+
+
+def signed_zero_jobs(rng, reps):
+    """-0.0 and +0.0 in the same float layer: equal VALUES (combine must give them one id, frequencies count them as
+    equal, positions take the first).  TLC sees the value 0 for both."""
+    jobs = []
+    for L in (2, 3):
+        for _ in range(reps):
+            H, W = rng.choice([(4, 5), (3, 6), (5, 5)])
+            layers = [[[NAN if rng.random() < 0.05 else rng.choice([0, 0, 0, 1, -1, 2]) for _ in range(W)]
+                       for _ in range(H)] for _ in range(L)]
+            ref = [[rng.randrange(1, L + 1) for _ in range(W)] for _ in range(H)]
+            jobs.append({"H": H, "W": W, "L": L, "layers": layers, "ref": ref, "dtypes": [rng.choice(["float64", "float32"]) for _ in range(L)],
+                         "negzero": True, "layouts": [rng.choice(C_LIKE) for _ in range(L)], "full": 0, "pairs": 1,
+                         "tag": "signed_zeros_L%d" % L})
+    return jobs
+
+
+def big_raster_jobs(rng, shapes):
+    """Rasters with MORE than 8192 cells (numpy's default nditer buffer) and a non-constant reference layer, for the
+    operators that pair the cell tuple with the reference layer (the three frequencies, rank, popularity)."""
+    jobs = []
+    for (H, W) in shapes:
+        L = 2
+        layers = [[[NAN if rng.random() < 0.01 else rng.randrange(0, 4) for _ in range(W)] for _ in range(H)]
+                  for _ in range(L)]
+        ref = [[1 + (y * 7 + x * 3 + (y * x) % 5) % L for x in range(W)] for y in range(H)]
+        jobs.append({"H": H, "W": W, "L": L, "layers": layers, "ref": ref, "dtypes": ["float64", "int64"][:L] if False else ["float64"] * L,
+                     "layouts": ["C"] * L, "funcs": ["lesser_frequency", "equal_frequency", "greater_frequency", "rank"],
+                     "pop": True, "comb": False, "full": 0, "pairs": 0, "tag": "big_raster_%dx%d" % (H, W)})
+    return jobs
+
+
 def mixed_dtype_jobs(rng, reps):
     """Integer and float layers in one dataset, in EVERY order of data_vars (in particular an integer layer first
     and a float layer with fractional values and NaN later), scale 1/2: float layers carry halves, integer layers
@@ -423,7 +480,9 @@ def run(ctx):
     ctx.sample({"kind": "layouts", "tag": c["tag"], "layers": c["layers"], "ref": c["ref"], "strides": c["strides"],
                 "iter": c["iter"], "max": c["out"].get("max")})
 
-    jobs = mixed_dtype_jobs(rng, ctx.pick(1, 6)) + near_tie_jobs(rng, ctx.pick(6, 60))
+    jobs = mixed_dtype_jobs(rng, ctx.pick(1, 6)) + near_tie_jobs(rng, ctx.pick(6, 60)) + \
+        inf_jobs(rng, ctx.pick(4, 40)) + signed_zero_jobs(rng, ctx.pick(4, 40)) + \
+        big_raster_jobs(rng, ctx.pick([(100, 100)], [(100, 100), (91, 97), (50, 400), (300, 41)]))
     ctx.note("R: %d datasets: mixed int/float dtypes in every data_vars order; near-tie values carried by rank" % len(jobs))
     cases = observe(ctx, jobs, "replay_mixed_and_near_ties", tally, parallel=ctx.pick(2, 6))
     c = [c for c in cases if c["tag"].startswith("near_tie")][0]
